@@ -16,7 +16,7 @@ pub enum Case {
     Write { value_idx: usize, fail_at: usize, kind: u8 },
 }
 
-pub const ENTRIES: [&str; 3] = ["from_reader", "with_deserializer_from_reader", "read (iterator)"];
+pub const ENTRIES: [&str; 4] = ["from_reader", "with_deserializer_from_reader", "read (iterator)", "read (iterator) into Vec<i64>"];
 
 fn kind_of(k: u8) -> ErrorKind {
     match k {
@@ -110,9 +110,13 @@ fn single(entry: u8, rd: FaultReader, cap: Option<Option<usize>>) -> Result<(Obs
 }
 
 /// drain the iterator: list of items ("ok:<value>" / "err:<variant>"), whether it ended within the cap
-fn iterate(mut rd: FaultReader, cap_items: usize) -> Result<(Vec<Obs>, bool), String> {
+fn iterate(rd: FaultReader, cap_items: usize) -> Result<(Vec<Obs>, bool), String> {
+    iterate_as::<Tree>(rd, cap_items)
+}
+
+fn iterate_as<T: serde::de::DeserializeOwned + std::fmt::Debug>(mut rd: FaultReader, cap_items: usize) -> Result<(Vec<Obs>, bool), String> {
     guarded(move || {
-        let it = serde_saphyr::read::<_, Tree>(&mut rd);
+        let it = serde_saphyr::read::<_, T>(&mut rd);
         let mut out = Vec::new();
         let mut ended = false;
         let mut it = it;
@@ -198,7 +202,9 @@ impl Prop for C10 {
                 } else {
                     let (clean_rd, _) = FaultReader::new(bytes, *chunk, Fault::None, k);
                     let n_docs = text.matches("---").count() + 3;
-                    let (clean, clean_ended) = match iterate(clean_rd, n_docs + 3) {
+                    let typed = *entry == 3;
+                    let run = |rd: FaultReader| if typed { iterate_as::<Vec<i64>>(rd, n_docs + 3) } else { iterate(rd, n_docs + 3) };
+                    let (clean, clean_ended) = match run(clean_rd) {
                         Ok(x) => x,
                         Err(p) => {
                             v.fail("panic", p);
@@ -206,7 +212,7 @@ impl Prop for C10 {
                         }
                     };
                     let (rd, stats) = FaultReader::new(bytes, *chunk, *fault, k);
-                    let (got, ended) = match iterate(rd, n_docs + 3) {
+                    let (got, ended) = match run(rd) {
                         Ok(x) => x,
                         Err(p) => {
                             v.fail("panic", format!("{:?} {:?}: {}", text, fault, p));
@@ -229,7 +235,12 @@ impl Prop for C10 {
                     let clean_oks: Vec<&Obs> = clean.iter().filter(|o| o.is_ok()).collect();
                     let eof_inside = matches!(fault, Fault::EofAfterByte(b) if *b < bytes.len() && !text.is_char_boundary(*b));
                     if faulted || eof_inside {
-                        if !got.iter().any(|o| o.is_err()) {
+                        // an error item, and (documents may fail the target type for their own reasons) one that
+                        // is about the reader
+                        // about the reader: the items must not simply be a prefix of the fault-free items (a document
+                        // may fail the target type for reasons of its own - that error is in the fault-free run too)
+                        let no_trace = got.len() <= clean.len() && got.iter().zip(&clean).all(|(a, b)| a == b);
+                        if !got.iter().any(|o| o.is_err()) || no_trace {
                             v.fail("iterator_swallows_reader_error", format!("{:?} (chunk {}), {:?}: items {:?} contain no error", text, chunk, fault, got));
                             return v;
                         }
@@ -382,7 +393,7 @@ pub fn run(ctx: &Ctx) -> i32 {
         let n = text.len();
         for chunk in [1usize, 3, 4096] {
             let reads = n.div_ceil(chunk) + 2;
-            for entry in 0..3u8 {
+            for entry in 0..4u8 {
                 for kind in [0u8, 1, 3] {
                     for k in 0..=reads {
                         cases.push(Case::Read { text: text.clone(), chunk, fault: Fault::AtRead(k), kind, entry });
